@@ -1,13 +1,17 @@
 def _c12_project(op, line):
     # C12 observes the frames and the terminal error class, nothing else
+    if op.startswith("round "):
+        # family sockj (real acceptor over TCP): C12 takes one clause of the monitor — a TestRequest written together with the
+        # Logon is answered like one sent apart (the handshake parser's buffered bytes are not lost); the rest is C09's / C05's
+        return ""
     w = line.split()
     return " ".join(w[:4])
 
 PROPS["C12"] = {
-        "families": {"frame": {"quick": 2000, "thorough": 15000}},
+        "families": {"frame": {"quick": 2000, "thorough": 15000}, "sockj": {"quick": 2, "thorough": 24}},
         "project": _c12_project,
         # c12_*: chunk independence / whole-stream spec / exactness;  c09_framer_*: the framer part of C09 (panic, hang)
-        "mon_clauses": ["c12_", "c09_framer_"],
+        "mon_clauses": ["c12_", "c09_framer_", "C12."],
         "claim": "Theorems (Lean kernel, all chunk lists incl. empty reads, both EOF conventions of io.Reader): the frames and the terminal error "
                  "the model of parser.go extracts from a reader serving chunks cs equal framesWhole(cs.flatten), a function of the stream alone "
                  "(C12_chunk_independent); for junk/message interleavings with well-formed frames and junk without '8=' the frames are exactly the "
